@@ -41,6 +41,26 @@ CLAIMED = {
         design="§4 C12", technique="Coq proof by order embedding + per-bin vm_compute checks; extracted-model differential; exhaustive C++ sweep",
         note=PROOF_NOTE + "  One theorem (c12_model_is_flocq_ieee, the bridge to Flocq's Bplus/Bdiv) depends on the standard library's real-number "
              "axioms sig_forall_dec, sig_not_dec, functional_extensionality_dep, classic; the other 17 are closed under the global context."),
+    "C07": dict(
+        text="Machine-checked proof (Coq) of index safety for the integer-indexed receive-path code on models in which every array access is checked "
+             "(error monad): m17-demod's frame handlers for every callback history (any 30/18/26/25-byte buffers, any costs), AX.25 parsing for every "
+             "byte string, LICH slot <= 5, framer index even and < 368 for every history, unpack_lich indices, and the clock sample index in 0..9 for every "
+             "estimate in [0,10] (conditional on the floating-point estimators delivering a finite value in that range - tested, not proved).  Tie = model "
+             "verdict <=> ASan/UBSan/_GLIBCXX_ASSERTIONS verdict on the same inputs, plus sanitizer runs of the real demodulator/decoder on hostile streams "
+             "with run-time assertions on the public index members.  Viterbi/Golay/depuncture/callsign index obligations are proved in C02/C04/C11/C17.",
+        design="§4 C07", technique="Coq proof over checked-access models + sanitizer differential",
+        note=PROOF_NOTE + "  Memory safety of the C++ itself is not what the theorem states: it states that no index expression of the model leaves its array; "
+             "the floating-point estimators, the standard library and everything the model does not describe rest on the sanitizer runs (exploration)."),
+    "C20": dict(
+        category="other",
+        text="Proof (Coq) of the application-level handlers: for every valid source, destination/broadcast and CAN the text m17-demod prints for the "
+             "specification's LSF is exactly the SRC/DEST/STR:V/V/CAN line with no packet diagnostic; stdout is 640 bytes per STREAM callback; the EOS frame "
+             "prints EOS and ends the stream.  The pipeline itself (process start-up, pipes, the analogue path, exit status) is RUN, not proved: both "
+             "applications are rebuilt from /repo on every run and m17-mod | m17-demod -l is executed over callsigns, CAN, audio kinds, polarity and leading "
+             "noise with the oracle of the property statement.",
+        design="§4 C20", technique="Coq proof of handler models + process-level pipeline runs (oracle = property statement)",
+        note="Partial by design (DESIGN §9): handler theorems are about hand-written models tied by a differential run; everything analogue, Boost option "
+             "parsing and iostreams are only tested.  One known finding (no acquisition for some link parameters with silent audio)."),
 }
 
 NOT_YET = {}
